@@ -30,6 +30,17 @@ def some_return(prog, fn):
         n = strip(sc._rw(rn))
         if n[0] == "agg" and n[1].split("::")[-1] in ("Some", "Ok"):
             vals.append(unwrap_some(n))
+        elif n[0] == "call" and short_callee(n[1]) == "map" and "option::Option" in n[1] and len(n[2]) == 2:
+            # `opt.map(|x| value(x))`: the value is the closure's (or function's) result on the payload; it is None exactly when `opt` is
+            from ..exprs import mkproj
+            from .c08 import closure_return
+            payload = mkproj(strip(n[2][0]), ("@Some", ".0"))
+            r = closure_return(prog, sc, n[2][1], payload)
+            if r is None:
+                others.append(n)
+                continue
+            vals.append(r)
+            others.append(("call", "from_residual", (strip(n[2][0]),), None))
         else:
             others.append(n)
     return sc, vals, others
@@ -42,14 +53,36 @@ def run(ctx):
     f = prog.method("types::constructions::WinCons", None, "u_value")
     sc, vals, others = some_return(prog, f)
     ctx.require(len(vals) == 1, "WinCons::u_value: expected one Some(..) return")
-    lm = LeafMap({"self.delta_u": "dU", "self.f_f": "Ff"}, [(r"get_frame\(.*\)\?\.u_value$", "Uf"), (r"get_glass\(.*\)\?\.u_value$", "Ug")])
+    lm = LeafMap({"self.delta_u": "dU", "self.f_f": "Ff"}, [(r"get_frame\(.*\)(\?|@Some\.0)\.u_value$", "Uf"), (r"get_glass\(.*\)(\?|@Some\.0)\.u_value$", "Ug")])
     compare(ctx, "c07.formula", "c07.formula|WinCons::u_value", vals[0], "r2((1 + dU/100) * (Uf*Ff + Ug*(1 - Ff)))", lm, None, f.loc(), "U_W")
-    # D3: the only other returns are `?` propagations of the two lookups
-    desc = sorted(origin_desc(o) for o in others)
-    if len(others) == 2 and all("from_residual" in show(o) for o in others) and any("get_glass" in d for d in desc) and any("get_frame" in d for d in desc):
-        ctx.ok("c07.none", "c07.none|WinCons::u_value", "the only other returns are get_glass(..)? and get_frame(..)? propagating None", f.loc())
+    # D3: a U-value exactly when glazing and frame both resolve (truth table over the two lookups, however they are tested: `?`, match, if let)
+    from .. import tables as TB
+    bad = []
+    for has_glass, has_frame in ((True, True), (True, False), (False, True), (False, False)):
+        def atom_value(n_):
+            n_ = strip(n_)
+            if n_[0] != "discr":
+                return None
+            inner = strip(n_[1])
+            is_try = inner[0] == "call" and short_callee(inner[1]) == "branch"
+            txt = show(inner)
+            which = "glass" if "get_glass" in txt and "get_frame" not in txt else "frame" if "get_frame" in txt and "get_glass" not in txt else None
+            if which is None:
+                return None
+            present = has_glass if which == "glass" else has_frame
+            # Option discriminant: None = 0, Some = 1; ControlFlow of `?`: Continue = 0, Break = 1
+            return ("0" if present else "1") if is_try else ("1" if present else "0")
+        r = TB.eval_return(sc, atom_value, try_atoms=True)
+        if isinstance(r, tuple) and r and r[0] == "stuck":
+            raise AnalysisError("WinCons::u_value: cannot follow the test %s" % r[1])
+        r = strip(r)
+        is_some = r[0] == "agg" and r[1].split("::")[-1] == "Some"
+        if is_some != (has_glass and has_frame):
+            bad.append("glazing %s, frame %s -> %s" % ("found" if has_glass else "missing", "found" if has_frame else "missing", "a U-value" if is_some else "None"))
+    if bad:
+        ctx.violation("c07.none", "c07.none|WinCons::u_value", "a construction has a U-value exactly when glazing and frame resolve, but: %s" % "; ".join(bad), f.loc())
     else:
-        ctx.violation("c07.none", "c07.none|WinCons::u_value", "a construction without glazing or frame no longer yields None: other returns %s" % desc, f.loc())
+        ctx.ok("c07.none", "c07.none|WinCons::u_value", "U-value iff glazing and frame both resolve (4 cases)", f.loc())
     # sibling in the parser
     h = prog.method("bdl::db::windowcons::WinCons", None, "u")
     hsc, hvals, hothers = some_return(prog, h)
@@ -60,7 +93,7 @@ def run(ctx):
     g = prog.method("types::constructions::WinCons", None, "g_glwi")
     gsc, gvals, gothers = some_return(prog, g)
     ctx.require(len(gvals) == 1, "WinCons::g_glwi: expected one Some(..) return")
-    lm3 = LeafMap({}, [(r"get_glass\(.*\)\?\.g_gln$", "ggln")])
+    lm3 = LeafMap({}, [(r"get_glass\(.*\)(\?|@Some\.0)\.g_gln$", "ggln")])
     compare(ctx, "c07.formula", "c07.formula|WinCons::g_glwi", gvals[0], "r2(0.9 * ggln)", lm3, None, g.loc(), "g_gl;wi")
     if not (len(gothers) == 1 and "get_glass" in origin_desc(gothers[0])):
         ctx.violation("c07.none", "c07.none|WinCons::g_glwi", "missing glazing no longer yields None", g.loc())
@@ -74,6 +107,27 @@ def run(ctx):
     if len(rns) > 1 and resid and not any("self.g_glshwi" in show(r_) for r_ in resid):
         # `x?` before the user value is looked at: the result is None whenever x is, whatever the user gave
         chain = ["None when %s is None" % origin_desc(resid[0])[:60]] + [show(strip(ssc._rw(n_)))[:80] for _, n_ in rns if strip(ssc._rw(n_)) not in resid]
+    elif len(rns) > 1:
+        # `match self.g_glshwi { Some(user) => Some(round2(user)), None => self.g_glwi(db) }`: the two arms, read by evaluating the test on the user value
+        from .. import tables as TB
+        chain = []
+        for present in (True, False):
+            def atom_value(n_):
+                n_ = strip(n_)
+                if n_[0] == "discr" and (leaf_name(strip(n_[1])) or "").endswith("self.g_glshwi"):
+                    return "1" if present else "0"
+                if n_[0] == "call" and short_callee(n_[1]) in ("is_some", "is_none") and (leaf_name(strip(n_[2][0])) or "").endswith("self.g_glshwi"):
+                    return "1" if (present == (short_callee(n_[1]) == "is_some")) else "0"
+                return None
+            r = TB.eval_return(ssc, atom_value)
+            if isinstance(r, tuple) and r and r[0] == "stuck":
+                raise AnalysisError("WinCons::g_glshwi: cannot follow the test %s" % r[1])
+            r = strip(r)
+            if r[0] == "agg" and r[1].split("::")[-1] == "Some":
+                r = strip(r[3][0])
+            txt = origin_desc(r)
+            import re as _re
+            chain.append(_re.sub(r"\b(?:\w+::)+(?=\w+\()", "", txt.replace("self.g_glshwi@Some.0", "self.g_glshwi")))
     else:
         ctx.require(len(rns) == 1, "WinCons::g_glshwi: expected a single return expression")
         chain = fallback_chain(prog, ssc, ssc._rw(rns[0][1]))
@@ -85,14 +139,16 @@ def run(ctx):
     ep = prog.method("energy::props::EnergyProps", "convert::From", "from")
     esc = Scope(prog, ep)
     lits = []
-    for b, i, s in ep.body.statements():
-        if s["s"] == "assign" and s["rv"]["r"] == "agg" and s["rv"].get("adt", "").endswith("WinConsProps"):
-            lits.append((esc.rvalue(s["rv"]), s.get("ln")))
+    for sc_ in esc.all_scopes():       # the literal may sit in a private constructor of the same module (`WinConsProps::from_cons`)
+        for b, i, s in sc_.body.statements():
+            if s["s"] == "assign" and s["rv"]["r"] == "agg" and s["rv"].get("adt", "").endswith("WinConsProps"):
+                lits.append((sc_.rvalue(s["rv"]), s.get("ln")))
+                esc_lit = sc_
     ctx.require(len(lits) == 1, "WinConsProps literal not found in EnergyProps::from")
     lit, ln = lits[0]
     fields = dict(zip(lit[2], lit[3]))
-    c1 = fallback_chain(prog, esc, fields["g_glwi"])
-    c2 = fallback_chain(prog, esc, fields["g_glshwi"])
+    c1 = fallback_chain(prog, esc_lit, fields["g_glwi"])
+    c2 = fallback_chain(prog, esc_lit, fields["g_glshwi"])
     w1 = ["g_glwi(model.cons.wincons[],model.cons)", "0.77"]
     if c1 == w1:
         ctx.ok("c07.chain", "c07.chain|props.g_glwi", "g_glwi = [computed, 0.77]", ep.loc(ln))
